@@ -1623,21 +1623,28 @@ pub mod c15_validated {
         let script: Script = Arc::new(Mutex::new(
             (0..n).map(|i| match e { Some(e) if i == e => 2, Some(e) if i > e => 0, _ => 1 }).collect(),
         ));
-        let fmt = |r: Result<Result<Vec<usize>, Error>, String>| match r {
+        let fmt1 = |r: Result<Result<Vec<usize>, Error>, String>| match r {
             Err(_) => "timeout".to_string(),
             Ok(Ok(v)) if v == (0..n).collect::<Vec<_>>() => format!("ok:{n}"),
             Ok(Ok(v)) => format!("ok-wrong:{}", nat_list(&v)),
             Ok(Err(Error::Internal)) => "err".into(),
             Ok(Err(e)) => format!("err:{}", super::c16_batcher::err_tag(&e)),
         };
+        // a join that does not complete is dropped after the timeout; its validator then panics (`ContextUnsafe`) if a
+        // record had asked for a validation that never came: still a timeout
+        let fmt = |r: Result<Result<Result<Vec<usize>, Error>, String>, String>| match r {
+            Err(p) if p.contains("ContextUnsafe") => "timeout".to_string(),
+            Err(p) => p,
+            Ok(r) => fmt1(r),
+        };
         match t[1] {
             "dzkp" => {
                 let v = mal.set_total_records(n).dzkp_validator(TEST_DZKP_STEPS, rpb);
-                fmt(block_on_timeout(3, v.validated_seq_join(tasks(n, &script)).try_collect::<Vec<usize>>()))
+                fmt(guarded(|| block_on_timeout(3, v.validated_seq_join(tasks(n, &script)).try_collect::<Vec<usize>>())))
             }
             "sh" => {
                 let v = sh.set_total_records(n).dzkp_validator(TEST_DZKP_STEPS, rpb);
-                fmt(block_on_timeout(3, v.validated_seq_join(tasks(n, &script)).try_collect::<Vec<usize>>()))
+                fmt(guarded(|| block_on_timeout(3, v.validated_seq_join(tasks(n, &script)).try_collect::<Vec<usize>>())))
             }
             k => panic!("harness: unknown validator kind {k}"),
         }
